@@ -118,4 +118,20 @@ theorem tak_evInside (hDt : ∀ q, D q → TakD q) (hev : EvInside basis ev) :
 theorem goodPos_rank {p : Pos} (h : GoodPos basis p) {k : Nat} (hk : p.move + k ≤ 2000000) :
     takS basis TakD (some 2000000) k p := takS_some basis TakD h.1 h.2 hk
 
+/-- the good positions that satisfy `D` (a set closed under applied moves: `DomClosed`) -/
+def TakDom (basis : Array W) (D : Pos → Prop) (q : Pos) : Prop := InvB basis q ∧ D q
+
+/-- equal hashes ⇒ alike for the search's verdicts, among the good positions satisfying `D` -/
+def TakHashOK (basis : Array W) (ev : Pos → Int) (sym : Pos → List H) (D : Pos → Prop) : Prop :=
+  HashOKOn (takGame basis ev sym) (TakDom basis D)
+
+theorem takS_none_iff (basis : Array W) (D : Pos → Prop) (k : Nat) (q : Pos) :
+    takS basis D none k q ↔ TakDom basis D q :=
+  ⟨fun h => ⟨h.1, h.2.1⟩, fun h => ⟨h.1, h.2, fun n hn => by cases hn⟩⟩
+
+theorem takHashOK_dom {basis : Array W} {ev : Pos → Int} {sym : Pos → List H} {D : Pos → Prop}
+    (h : TakHashOK basis ev sym D) : HashOKOn (takGame basis ev sym) (takS basis D none 0) :=
+  fun p q hp hq => h p q ((takS_none_iff basis D 0 p).mp hp) ((takS_none_iff basis D 0 q).mp hq)
+
+
 end Search
